@@ -106,6 +106,11 @@ func (c *Cluster) UpsertRegionHeartbeat(meta manifest.RegionMeta) error {
 	if meta.ID == 0 {
 		return ErrInvalidRegionID
 	}
+	// A bounded region must contain at least one key. An empty or inverted range passes the
+	// overlap test against every neighbour and would then shadow the real owner in lookups.
+	if len(meta.EndKey) > 0 && bytes.Compare(meta.StartKey, meta.EndKey) >= 0 {
+		return fmt.Errorf("%w: region=%d", ErrInvalidRegionRange, meta.ID)
+	}
 
 	c.mu.Lock()
 	defer c.mu.Unlock()
